@@ -91,7 +91,10 @@ Definition lincomb2n (T1 T2 : option (list (list F))) (m : list (list A)) : list
 
 (* base_two_symm.py:171-181: the evaluated blocks i <= j go to the upper triangle;
    EVERY block of np.tril_indices, the diagonal ones included, is then overwritten
-   by the transposed block of the mirrored position *)
+   by the transposed block of the mirrored position.  (After the repair of the
+   Hermitian defect the code conjugates the mirrored block, np.conj(np.swapaxes(..));
+   conjugation is the identity on the real / integer entries this model is run on
+   and commutes with the real transforms, so it is not represented here.) *)
 Definition two_symm_blocks_t (n : nat) (bf : nat -> nat -> list (list A)) : list (list A) :=
   vcat (mk n (fun i => hcat (mk n (fun j =>
     if Nat.ltb i j then bf i j else transpose azero (bf j i))))).
